@@ -56,6 +56,7 @@ type c12World struct {
 	conc     int
 	prio     bool
 	injected int
+	restarted bool // the consumer was restarted while entries were on their way (errors of the old run are not followed)
 }
 
 type c12Add struct {
@@ -277,6 +278,8 @@ func c12Run[T any](seed uint64, tier string, gen func(r *simrt.Rand) T) (*Episod
 	}
 	var genLog []genRec
 	startPaused := r.Chance(40)
+	restart := !startPaused && r.Chance(12)
+	cw.restarted = restart
 	opts := simOptions(cfg, seed, numSites, nil, false)
 	sim := simrt.New(opts)
 	ep.Res = sim.Run(func() {
@@ -361,6 +364,17 @@ func c12Run[T any](seed uint64, tier string, gen func(r *simrt.Rand) T) (*Episod
 					_ = before
 					cw.adds = append(cw.adds, a)
 				}
+			})
+		}
+		if restart {
+			// the consumer is restarted while entries are being stored and dispatched: the
+			// event loop of the old run may still be on its last pass next to the new one's,
+			// and every entry must come through with its own id and payload all the same
+			simrt.GoHarness("restarter", func() {
+				for k := simrt.Choose(8); k > 0; k-- {
+					simrt.YieldAlways()
+				}
+				w.Restart()
 			})
 		}
 		// injector: corrupted / foreign entries at seeded positions while everything runs
@@ -563,6 +577,10 @@ func c12Judge[T any](ep *Episode, cw *c12World) {
 			}
 			k++
 		}
+	}
+	if cw.restarted {
+		// (Restart replaces the error channel: the reader of the first one misses the rest)
+		return
 	}
 	// errors: only the library's own decode/dequeue errors, and at least one when an undecodable entry was delivered
 	undec := 0
